@@ -415,6 +415,11 @@ fn run_analysis(src: &str, path: Option<PathBuf>) -> JobResult {
         }
     }
     walk(ast, &mut lines, 0);
+    // the scratch directory holds the process id; a run must be a pure function of its seed
+    let scratch = scratch_dir().display().to_string();
+    for l in lines.iter_mut() {
+        *l = l.replace(&scratch, "<scratch>");
+    }
     JobResult::Diagnostics(lines)
 }
 
@@ -1317,6 +1322,9 @@ fn judge_once(sc: &Scenario, persist_dir: &str) -> serde_json::Value {
         }
         (expected, Verdict { violation, schedules: sc.iterations, schedule_file: None })
     };
+    if std::env::var("VERIF_TRACE").is_ok() {
+        eprintln!("{expected:#?}");
+    }
     let mut counters = serde_json::Map::new();
     counters.insert("schedules".into(), json!(v.schedules));
     counters.insert("scheduling_steps".into(), json!(ST_STEPS.swap(0, std::sync::atomic::Ordering::Relaxed)));
